@@ -78,9 +78,13 @@ class C05(Check):
               "add_reaction exactly once per pattern (no filter / early exit) with the pattern in the reaction name",
         "L3": "the map is read in the documented gather direction: product position i <- substrate position labelmap[i]",
         "L4": "repacked stoichiometry changes each substrate occurrence by exactly -1 and each product occurrence by +1",
+        "L6": "initial label placement addresses isotopomers by string position (position i <-> i-th character from the left, the "
+              "convention of the pattern generator and of the map reader); addressing by bit significance (1 << i) mirrors the positions",
+        "L7": "substrate / product occurrence lists follow the declared order of the stoichiometry (no sorted/set/reversed): map "
+              "positions refer to atoms in that order",
         "L5": "positions beyond the substrates enter labelled: external labels are '1' x (product labels - substrate labels)",
     }
-    floors = {"L1": 1, "L2": 3, "L3": 1, "L4": 2, "L5": 1}
+    floors = {"L1": 1, "L2": 3, "L3": 1, "L4": 2, "L5": 1, "L6": 1, "L7": 2}
     decided = [
         "one isotopomer reaction per substrate labelling pattern, none skipped",
         "a map shorter than the substrates' atoms is rejected before any reaction is created",
@@ -177,6 +181,67 @@ class C05(Check):
                 self.violated("L4", MOD, rp.name, cons, rp, f"occurrences in {w[3]} do not change the coefficient by exactly {'-' if w[1] == 'Sub' else '+'}1: {aug}",
                               witness="2 A -> B: the isotopomer reaction consumes one A instead of two")
 
+        self.l6(mod)
+        self.l7(mod)
+
+    def l6(self, mod) -> None:
+        bm = mod.func("LabelMapper.build_model")
+        q = "LabelMapper.build_model"
+        stores = [s for s in ast.walk(bm) if isinstance(s, ast.Assign) and isinstance(s.targets[0], ast.Subscript) and norm(s.targets[0].value) == "variables"
+                  and norm(s.value) == "v" and norm(s.targets[0].slice) not in ("k", "isos[0]")]
+        if not stores:
+            self.undecided_ob("L6", MOD, q, "initial-label-position", bm, "placement of the requested initial label not found")
+            return
+        st = stores[0]
+        key = st.targets[0].slice
+        expr = key
+        # resolve one level of local definition (suffix = ...)
+        for n in ast.walk(key):
+            if isinstance(n, ast.Name):
+                for a in ast.walk(bm):
+                    if isinstance(a, ast.Assign) and norm(a.targets[0]) == n.id and a.lineno < st.lineno and n.id not in ("k", "v", "isos"):
+                        expr = ast.Tuple(elts=[key, a.value], ctx=ast.Load())
+        txt = norm(expr)
+        shifts = [n for n in ast.walk(expr) if isinstance(n, ast.BinOp) and (isinstance(n.op, ast.LShift) or (isinstance(n.op, ast.Pow) and norm(n.left) == "2"))]
+        positional = [g for g in ast.walk(expr) if isinstance(g, ast.GeneratorExp) and "range(self.label_variables[k])" in norm(g.generators[0].iter)
+                      and isinstance(g.elt, ast.IfExp) and norm(g.elt.body) == "'1'" and norm(g.elt.orelse) == "'0'" and " in label_pos" in norm(g.elt.test)]
+        if positional and not shifts:
+            self.holds("L6", MOD, q, "initial-label-position", st, "suffix built character by character: position i is the i-th character from the left")
+        elif shifts:
+            mirrored_ok = any("- 1 -" in norm(n.right) or "-1-" in norm(n.right).replace(" ", "") for n in shifts)
+            if mirrored_ok:
+                self.holds("L6", MOD, q, "initial-label-position", st, f"`{txt[:70]}` uses bit significance n-1-i (leftmost position most significant)")
+            else:
+                self.violated("L6", MOD, q, "initial-label-position", st,
+                              f"`{txt[:90]}` addresses the isotopomer by bit significance 2**i, but the patterns are enumerated with position 0 as the "
+                              "LEFTMOST (most significant) character: the label is placed at the mirrored position n-1-i",
+                              witness="label_variables {'A': 2}, initial_labels {'A': 0}: the amount goes to A__01 instead of A__10")
+        else:
+            self.undecided_ob("L6", MOD, q, "initial-label-position", st, f"placement expression `{txt[:80]}` not recognised")
+
+    def l7(self, mod) -> None:
+        fn = mod.func("_unpack_stoichiometries")
+        loops = [l for l in strip_docstring(fn.body) if isinstance(l, ast.For)]
+        if not loops:
+            raise AnalysisError("_unpack_stoichiometries: loop not found")
+        it_ = loops[0].iter
+        p0 = fn.args.args[0].arg
+        bad = [c for c in ast.walk(it_) if isinstance(c, ast.Call) and norm(c.func).split(".")[-1] in ("sorted", "set", "reversed", "frozenset")]
+        if norm(it_) == f"{p0}.items()":
+            self.holds("L7", MOD, fn.name, "declared-order", loops[0], f"iterates {p0}.items(): declaration order of the reaction's stoichiometry")
+        elif bad:
+            self.violated("L7", MOD, fn.name, "declared-order", loops[0],
+                          f"`{norm(it_)}` reorders the stoichiometry: substrate/product positions no longer follow the declared order the atom map refers to",
+                          witness="{'S': -1, 'A': -1, 'P': 1} with S:2, A:1, P:3 and the identity map: S__10 + A__0 gives P__010 instead of P__100")
+        else:
+            self.undecided_ob("L7", MOD, fn.name, "declared-order", loops[0], f"iteration source `{norm(it_)}` not recognised")
+        caller = mod.func("_create_isotopomer_reactions")
+        c = [x for x in ast.walk(caller) if isinstance(x, ast.Call) and norm(x.func) == "_unpack_stoichiometries"]
+        if c and norm(c[0]) == "_unpack_stoichiometries(stoichiometries=stoichiometry)":
+            self.holds("L7", MOD, caller.name, "stoichiometry-passed-as-declared", c[0], "the reaction's stoichiometry mapping is unpacked as given")
+        else:
+            self.violated("L7", MOD, caller.name, "stoichiometry-passed-as-declared", c[0] if c else caller, "the stoichiometry is transformed before unpacking")
+
     def must_fire(self):
         C = "_create_isotopomer_reactions"
         return [
@@ -192,6 +257,10 @@ class C05(Check):
             Variant("external-unlabelled", MOD, "_get_external_labels", "['1'] * n_external_labels", "['0'] * n_external_labels", expect="L5|"),
             Variant("patterns-of-products", MOD, C, "repeat=total_substrate_labels", "repeat=total_product_labels", expect="L2|"),
             Variant("name-without-pattern", MOD, C, "new_rate_name = rate_name + '__' + rate_suffix", "new_rate_name = rate_name + '__iso'", expect="L2|"),
+            Variant("initial-label-by-bit", MOD, "LabelMapper.build_model",
+                    "                suffix = '__' + ''.join(('1' if idx in label_pos else '0' for idx in range(self.label_variables[k])))\n                variables[f'{k}{suffix}'] = v",
+                    "                variables[isos[sum((1 << idx for idx in set(label_pos)))]] = v", expect="L6|", quick=True),
+            Variant("sorted-stoichiometry", MOD, "_unpack_stoichiometries", "for k, v in stoichiometries.items():", "for k, v in sorted(stoichiometries.items()):", expect="L7|", quick=True),
             Variant("map-before-external", MOD, C,
                     "        rate_suffix += external_labels\n        product_suffix = _map_substrates_to_products(rate_suffix=rate_suffix, labelmap=labelmap)",
                     "        product_suffix = _map_substrates_to_products(rate_suffix=rate_suffix, labelmap=labelmap)\n        rate_suffix += external_labels", expect="L5|"),
